@@ -186,6 +186,9 @@ def run(spec_case, ctx):
             return {"status": "fail", "kind": "pipeline:" + str(out.get("stage")), "key": key_hint,
                     "detail": f"stage={out.get('stage')} {out.get('error')} | classes={[(c['name'], c['parent'], [(f['name'], f['kind'], f['target']) for f in c['fields']]) for c in spec['classes']]}"[:900]}
         problems = compare(spec, out["facts"], C)
+        C["in_process_regenerations"] += 1
+        if out.get("second_generation_in_process_equal") is False:
+            problems.append("a second generation of the same input in the same process differs: " + str(out.get("second_generation_diff"))[:300])
         # determinism: same input, other hash seed, other process
         wd2 = tempfile.mkdtemp(prefix=modname + "-b-", dir=ctx["workroot"])
         shutil.copy(os.path.join(workdir, modname + ".py"), wd2)
